@@ -319,6 +319,9 @@ def bodyStmts (stmts : List Node) : R (List Node) := do
   let e ← endsWithExit stmts
   pure (if e then stmts.dropLast else stmts)
 
+/-- the loop `for i in range(len(f.statements))` of generate_lingo_code -/
+def bodyLingo (stmts : List Node) (ind : Nat) : R Str := (bodyStmts stmts).bind fun b => lingoStmts b ind
+
 def funcLingo (script : Script) (f : FuncDef) : R Str := do
   let head : Str := (if f.isMethod then S "method " else S "on ") ++ f.name
   let pnames ← f.params.mapM fun p => p.name
@@ -337,8 +340,7 @@ def funcLingo (script : Script) (f : FuncDef) : R Str := do
   let shown := gnames.filter fun g => !(match g with | .s v => script.globalVars.contains v | .i _ => false)
   let gtxt : Str := (shown.map fun g => indentOf 1 ++ S "global " ++ g.str ++ S "\n").flatten
   let gtxt := if shown.isEmpty then gtxt else gtxt ++ S "\n"
-  let body ← bodyStmts f.stmts
-  let btxt ← lingoStmts body 1
+  let btxt ← bodyLingo f.stmts 1
   pure (head ++ inst ++ gtxt ++ btxt ++ S "end\n")
 
 def funcsLingo (script : Script) : List FuncDef → Bool → R Str
